@@ -3,6 +3,7 @@ import QmcProofs.BondContainer
 import QmcProofs.RvbBalance
 import QmcProofs.RvbMove
 import QmcProofs.RvbSweep
+import QmcProofs.RvbRegion
 
 /-!
 # C03 — the RVB cluster update preserves the thermal distribution (partial by nature)
@@ -12,8 +13,13 @@ What Lean decides (all sizes, weights, counts):
   `calculate_mult`, `contiguous_bits`, `BondContainer` (invariant, total, selection rule; with the
   draw-0 edge F12 — fixed in /repo — as a regression witness);
 * (i)/(ii) the algebraic detailed-balance core on the segment abstraction (added below);
-* (iii) the move relation preserves consistency / legality / operator count (added below).
-Not decided here: the region-growing procedure (modelled by observation only), f64 rounding.
+* (iii) the move relation preserves consistency / legality / operator count (added below);
+* (v) the proposal (`build_cluster`, `WeightedBoundaryManager`, exact model `proposeRegion`) reads only
+  the skeleton (constant-operator positions per variable, cutoff, |J|-edges); an RVB move leaves the
+  skeleton untouched; hence forward and reverse proposal probabilities are equal and detailed
+  balance holds including the proposal (`rvb_detailed_balance_full`).
+Not decided here: f64 rounding; that the extracted abstraction of the new configuration is the
+flipped one (`extract a = flip (extract b)`: checked on every accepted pair of the correspondence).
 -/
 
 namespace Qmc.C03
@@ -454,6 +460,124 @@ example : rvbAcceptProb exE exB exR = 1 := by decide +kernel
 /-- the decider rejects the same move with the operator left on the (now unsatisfied) bond -/
 example : isRvbMove exE exB
     { exA with slots := exA.slots.set 1 (some (Op.diagonal [0, 1] 0 [false, false] false)) } exR = false := by
+  decide +kernel
+
+
+/-! ## (v) the proposal: which region is proposed with which probability
+
+`proposeRegion` (QmcModel/RvbRegion.lean) is the exact model of everything
+`rvb_update_with_ising_weight` does before `calculate_flip_prob`: `find_constants`, the start cell,
+the cluster size, `build_cluster` with the `WeightedBoundaryManager`, and the post-processing into
+(`subvars`, `cluster_starting_state`, `cluster_toggle_ps`). The correspondence run replays it on the
+recorded draws of **every** proposed update and requires the traced region and the number of words
+consumed to be equal. Its only input besides the RNG script is the `Skeleton`. -/
+
+/-- **the proposal reads only the skeleton**: two configurations (possibly of two Ising models) with
+the same number of variables, the same edges up to the sign of `J` (`bond_mag = |J|`), the same
+cutoff and the same positions of constant operators on every variable get, for every RNG script,
+the same proposal: same cluster cells, same region, same number of words consumed, same remaining
+script. Spin state, non-constant operators (the diagonal two-site operators), the contents
+(inputs/outputs, diagonal or not) of the constant operators, Γ, h and the signs of J
+(`bond_prefers_aligned`) are not read. -/
+theorem proposal_depends_on_skeleton_only (E E' : Ising) (c c' : Config)
+    (hn : E.nvars = E'.nvars)
+    (he : E.edges.map (fun e => (e.1, e.2.1, absR e.2.2)) = E'.edges.map (fun e => (e.1, e.2.1, absR e.2.2)))
+    (hc : c.slots.length = c'.slots.length)
+    (hp : ∀ v, v < E.nvars → constPs c.slots v = constPs c'.slots v) (rs : RS) :
+    proposeRegionCfg E c rs = proposeRegionCfg E' c' rs := by
+  unfold proposeRegionCfg
+  rw [skeleton_eq_of_same_data E E' c c' hn he hc hp]
+
+/-- **an RVB move preserves exactly that data**: cutoff and constant-operator positions per
+variable are unchanged (edges are a parameter). Hypothesis: no operator on a two-site edge bond is
+flagged constant — the precondition `find_constants` debug-asserts; for the Ising Hamiltonian only
+the transverse-field bonds are constant. -/
+theorem rvbMove_preserves_skeleton {E : Ising} {b a : Config} {R : Region} (h : RvbMove E b a R)
+    (hnc : edgeOpsNotConst E b.slots = true) :
+    skeleton E a = skeleton E b ∧ a.slots.length = b.slots.length ∧
+      ∀ v, constPs a.slots v = constPs b.slots v := by
+  refine ⟨h.skeleton_eq hnc, h.count.2, ?_⟩
+  intro v
+  unfold constPs
+  rw [h.2.2.constSig_eq hnc]
+
+/-- **proposal symmetry**: after an RVB move every RNG script proposes from the new configuration
+exactly what it proposes from the old one (same region, same draws consumed). -/
+theorem proposal_symmetric {E : Ising} {b a : Config} {R : Region} (h : RvbMove E b a R)
+    (hnc : edgeOpsNotConst E b.slots = true) (rs : RS) :
+    proposeRegionCfg E b rs = proposeRegionCfg E a rs := by
+  unfold proposeRegionCfg
+  rw [h.skeleton_eq hnc]
+
+/-- hence, under *any* distribution of RNG scripts, every event about the proposal — in particular
+"region `R'` is proposed" for any `R'` — has the same probability from both configurations -/
+theorem proposalProb_symmetric {E : Ising} {b a : Config} {R : Region} (h : RvbMove E b a R)
+    (hnc : edgeOpsNotConst E b.slots = true) (μ : List (List Nat × Rat)) (ev : Proposal × RS → Bool) :
+    proposalProb (skeleton E b) μ ev = proposalProb (skeleton E a) μ ev := by
+  rw [h.skeleton_eq hnc]
+
+/-- **detailed balance including the proposal**:
+`q(b→R) · π(c) · P_R(c→c') = q(a→R) · π(c') · P_R(c'→c)` where `q(x→R)` is the probability that the
+region `R` is proposed from configuration `x` under the script distribution `μ`. The equality
+`q(b→R) = q(a→R)` is no longer a hypothesis: it follows from `proposal_symmetric`. -/
+theorem rvb_detailed_balance_full {E : Ising} {b a : Config} {R : Region} (hmove : RvbMove E b a R)
+    (hnc : edgeOpsNotConst E b.slots = true) (μ : List (List Nat × Rat))
+    (P : Problem) (c c' : Assign) (eps : Rat)
+    (hshape : c.map List.length = c'.map List.length)
+    (hadm : Admissible P (c.map List.length) eps) :
+    proposalProb (skeleton E b) μ (proposesRegion E.nvars R) * (weight P c * transProb P c c' eps) =
+    proposalProb (skeleton E a) μ (proposesRegion E.nvars R) * (weight P.flip c' * transProb P.flip c' c eps) := by
+  rw [proposalProb_symmetric hmove hnc, rvb_detailed_balance P c c' eps hshape hadm]
+
+/-- the same on the pair of configurations: with the abstractions extracted from `b` and `a` by the
+sweep of `calculate_flip_prob` (the relation `extract a = flip (extract b)` is checked on every
+accepted pair of the correspondence run) -/
+theorem rvb_detailed_balance_full_cfg {E : Ising} {b a : Config} {R : Region} (hmove : RvbMove E b a R)
+    (hnc : edgeOpsNotConst E b.slots = true) (μ : List (List Nat × Rat)) (eps : Rat)
+    (hflip : (extract E a R).1 = (extract E b R).1.flip)
+    (hshape : (extract E b R).2.1.map List.length = (extract E a R).2.1.map List.length)
+    (hadm : Admissible (extract E b R).1 ((extract E b R).2.1.map List.length) eps) :
+    proposalProb (skeleton E b) μ (proposesRegion E.nvars R) *
+      (weight (extract E b R).1 (extract E b R).2.1 *
+        transProb (extract E b R).1 (extract E b R).2.1 (extract E a R).2.1 eps) =
+    proposalProb (skeleton E a) μ (proposesRegion E.nvars R) *
+      (weight (extract E a R).1 (extract E a R).2.1 *
+        transProb (extract E a R).1 (extract E a R).2.1 (extract E b R).2.1 eps) := by
+  rw [hflip]
+  exact rvb_detailed_balance_full hmove hnc μ _ _ _ eps hshape hadm
+
+/-! non-vacuity on the frustrated-triangle instance of (iii): from `exB` the script `[0, 0, w]`
+(start choice 0 = the cell of variable 1 above slot 0, size 1, one `get_random` draw) proposes
+exactly the region `exR` and consumes 3 words; from `exA` too. -/
+example : edgeOpsNotConst exE exB.slots = true := by decide
+example : skeleton exE exA = skeleton exE exB :=
+  (rvbMove_preserves_skeleton (isRvbMove_sound ex_isRvbMove) (by decide)).1
+example : skeleton exE exB =
+    { nvars := 3, cutoff := 6, cps := [[], [0, 3], [4]], edges := [(0, 1, 1), (1, 2, 1), (0, 2, 1)] } := by
+  decide +kernel
+example : findConstants (skeleton exE exB) =
+    { varStarts := [0, 0, 2], varLengths := [0, 2, 1], constantPs := [0, 3, 4], idle := [0] } := by
+  decide +kernel
+theorem ex_proposal :
+    let out := proposeRegionCfg exE exB (RS.ofScript [0, 0, 12345678901234567890])
+    out.1.clusterVars = [1] ∧ out.1.clusterFlips = [some 0] ∧ out.1.subvars = exR.subvars ∧
+      maskOf 3 out.1.subvars out.1.start = exR.mask0 ∧ out.1.toggles = exR.toggles ∧
+      out.1.panic = false ∧ out.2.draws = 3 ∧ out.2.script = [] := by
+  decide +kernel
+example : proposesRegion 3 exR (proposeRegionCfg exE exA (RS.ofScript [0, 0, 12345678901234567890])) = true := by
+  rw [← proposal_symmetric (isRvbMove_sound ex_isRvbMove) (by decide)]
+  decide +kernel
+/-- a larger cluster (size 3: the word `3` has two trailing ones): cells of variable 1 and 2 -/
+example : (proposeRegionCfg exE exB (RS.ofScript [0, 3, 5, 2 ^ 63, 7, 9, 11, 13])).1.clusterVars.length = 3 := by
+  decide +kernel
+
+/-- the hypothesis of `rvbMove_preserves_skeleton` is needed: flag the rotating two-site operator
+of the example constant (the relation keeps the flag) and the constant-operator positions of
+variables 0 and 2 change. -/
+theorem edgeOpsNotConst_needed :
+    let b' : Config := { exB with slots := exB.slots.set 1 (some (Op.diagonal [0, 1] 0 [false, true] true)) }
+    let a' : Config := { exA with slots := exA.slots.set 1 (some (Op.diagonal [1, 2] 1 [false, true] true)) }
+    isRvbMove exE b' a' exR = true ∧ skeleton exE a' ≠ skeleton exE b' := by
   decide +kernel
 
 end Qmc.C03
